@@ -191,7 +191,8 @@ def gen_C16(tier, rng):
         alts = [t for t in all_shapes(4, 3) if prod(t) == n and t != s]
         if alts:
             t = rng.choice(alts)
-            ins += [("leaf", False, t, vals), ("eq", 0, len(ins))]
+            alt_at = len(ins)
+            ins += [("leaf", False, t, vals), ("eq", 0, alt_at)]
         # an array with a graph and a gradient against a plain one with the same contents
         k = len(ins)
         ins += [("op", ("scale", 1.0), [1]), ("backward", k, None), ("eq", k, 0), ("eq", 1, 0),
@@ -203,6 +204,11 @@ def gen_C16(tier, rng):
             ins.append(("op", ("reshape", t), [0]))
             ins.append(("eq", 0, len(ins) - 1))
             ins.append(("eq", len(ins) - 2, 1))
+        # the approx-crate comparisons with default tolerances: on values that are identical or differ by a whole
+        # unit they must agree with ==, dimensions included
+        for (a, b) in [(0, 1), (0, 2), (1, 2), (0, 0)] + ([(0, alt_at), (alt_at, 1)] if alts else []):
+            ins.append(("abseq", a, b))
+            ins.append(("releq", a, b))
         cases.append(case("eq", ins, "equality"))
     # ranks 5-6 and larger dimensions
     for _ in range(40 if tier == "quick" else 400):
@@ -235,7 +241,8 @@ PROPS["C16"] = {
     "gen": gen_C16,
     "rule": "exhaustive over all shapes of rank 1..4 with dimensions 1..3: every in-range multi-index and "
             "flat index, zeros, flat, nested construction (depth up to 4), arr! literals of depth 1-4, "
-            "equality across tracking/graph/gradient, plus the refusal stream (zero dimension at every "
+            "equality across tracking/graph/gradient (== and the approx-crate abs_diff_eq / relative_eq with default "
+            "tolerances, on values identical or a whole unit apart, where they must coincide with ==), plus the refusal stream (zero dimension at every "
             "position, element count off by one, ragged nesting, empty nesting, flat index = length); "
             "distinct = distinct program text; all are non-trivial (each has at least one adjudicated "
             "observation)",
@@ -603,6 +610,20 @@ def gen_C07(tier, rng):
         ins += [("leaf", False, s, big), ("op", ("ln",), [3]), ("op", ("recip",), [3]), ("op", ("powf", 0.5), [3]),
                 ("op", ("powf", -1.0), [3])]
         cases.append(case("extreme", ins, "extreme_values", rtol=1e-6))
+    # saturation: arguments far beyond where exp overflows or underflows; sigmoid must give exactly 1 and 0 there
+    # (and a zero derivative), relu/neg/scale must pass the magnitude through
+    for k in range(30 if tier == "quick" else 300):
+        n = rng.randint(1, 5)
+        mags = [rng.choice([700.0, 709.0, 711.0, 745.0, 746.0, 800.0, 1e4, 1e10, 1e300]) * rng.choice([-1.0, 1.0])
+                for _ in range(n)]
+        negs = [-abs(x) for x in mags]
+        tr = k % 2 == 1
+        ins = [("leaf", tr, [n], mags), ("op", ("sigmoid",), [0]), ("op", ("relu",), [0]), ("op", ("neg",), [0]),
+               ("op", ("scale", 0.5), [0]), ("leaf", False, [n], negs), ("op", ("exp",), [5]),
+               ("op", ("sigmoid",), [5])]
+        if tr:
+            ins += [("backward", 1, None), ("grad", 0)]
+        cases.append(case("saturated", ins, "extreme_values:saturation", rtol=1e-6))
     # whole-valued exponents far beyond any table: parity decides the sign for a negative base
     for e in (4294967296.0, 4294967297.0, -4294967296.0, 2147483648.0, 2147483649.0, 1e300, 9007199254740993.0,
               65536.0, 65537.0):
@@ -642,8 +663,10 @@ PROPS["C07"] = {
     "rule": "all shapes of rank 1..4 with dimensions 1..3: sum(k) for every k in 0..rank and sum_all (integer data, "
             "exact); reshape to every ordered factorisation (rank <= 4) of the element count and refusal of other "
             "counts; neg, scale, powf (2, 3, 0.5, -1, 2.5), ln, exp, reciprocal, relu, sigmoid and softmax on positive "
-            "data and, where in-domain, on data with zeros and negatives; thorough adds seeded random shapes up to 6; "
-            "distinct = distinct program text",
+            "data and, where in-domain, on data with zeros and negatives; extreme in-domain values (logits hundreds "
+            "apart, 1e-300..1e300 for ln/reciprocal/powf, whole exponents >= 2^31) and saturation (sigmoid/relu/neg/"
+            "scale at |x| from 700 to 1e300, exp at large negative arguments, with the sigmoid derivative there); ranks "
+            "5-6; thorough adds seeded random shapes up to 6; distinct = distinct program text",
     "exhaustive": {"quick": False, "thorough": True},
     "assumptions": ["ln, reciprocal and non-integer powers are only applied to positive data (in-domain values)"],
 }
@@ -1130,6 +1153,10 @@ PROPS["C03"] = {
 # ======================================================================================
 # C13 gradient-descent update
 
+# the model's gd_update decides "frozen" while walking the list, as corgi does (Model/Program.v frozen_flags)
+TIED_PARAMETERS = True
+
+
 def gen_C13(tier, rng):
     cases = []
     pool = [[1], [2], [3], [2, 2], [1, 3], [3, 1], [2, 3], [2, 1, 2], [4], [1, 1], [2, 2, 2]]
@@ -1182,6 +1209,50 @@ def gen_C13(tier, rng):
                 c = case("gd", ins, "params%d:%s" % (n, "same_shape" if same else "mixed"))
                 c["gd_expect"] = expect
                 cases.append(c)
+    # tied parameters: a second handle (clone) of a parameter in the same list.  Clones share the gradient, the
+    # first of the two takes it and is stepped; the second then holds none and is left untouched; every other
+    # parameter must still be combined with its own gradient only
+    for k in range((120 if tier == "quick" else 1500) if TIED_PARAMETERS else 0):
+        n = rng.randint(2, 4)
+        lr = rng.choice([0.5, 0.25, 2.0, 1.0])
+        dims = [rng.choice(pool) for _ in range(n)]
+        ins, params = [], []
+        for d in dims:
+            ins.append(("leaf", True, d, rvals(rng, prod(d), True)))
+            params.append(len(ins) - 1)
+        cur = [list(i[3]) for i in ins]
+        tied = rng.randrange(n)
+        ins.append(("clone", params[tied]))
+        alias = len(ins) - 1
+        hold = [rng.random() < 0.75 for _ in range(n)]
+        hold[tied] = hold[tied] or k % 5 != 0
+        grads = []
+        for p_, d, h in zip(params, dims, hold):
+            if h:
+                g = rvals(rng, prod(d), True)
+                ins.append(("backward", p_ if rng.random() < 0.7 or p_ != params[tied] else alias, (d, g)))
+                grads.append(g)
+            else:
+                grads.append(None)
+        order = [(j, params[j]) for j in range(n)]
+        order.insert(rng.randint(0, n), ("alias", alias))
+        if rng.random() < 0.5:
+            rng.shuffle(order)
+        ins.append(("update", lr, [h_ for (_, h_) in order]))
+        first_is_alias = [j for (j, _) in order if j in ("alias", tied)][0] == "alias"
+        expect = []
+        for j in range(n):
+            stepped = grads[j] is not None and not (j == tied and first_is_alias)
+            ins.append(("obs", params[j]))
+            expect.append((len(ins) - 1, dims[j],
+                           [x - lr * g for x, g in zip(cur[j], grads[j])] if stepped else list(cur[j])))
+        ins.append(("obs", alias))
+        stepped = grads[tied] is not None and first_is_alias
+        expect.append((len(ins) - 1, dims[tied],
+                       [x - lr * g for x, g in zip(cur[tied], grads[tied])] if stepped else list(cur[tied])))
+        c = case("gd_tied", ins, "tied_parameters:%d" % n)
+        c["gd_expect"] = expect
+        cases.append(c)
     return cases
 
 
@@ -1215,7 +1286,9 @@ PROPS["C13"] = {
             "subset holding a gradient (deposited by backward(seed) on the parameter itself, sometimes twice), dyadic "
             "learning rates with integer data and random floats otherwise, parameters passed in list or shuffled order, "
             "1-3 rounds of deposit/update; after each update every parameter's tracking flag, dimensions, values and "
-            "gradient are observed and compared with the model and with old - lr*g computed here (bitwise); distinct = "
+            "gradient are observed and compared with the model and with old - lr*g computed here (bitwise); plus tied "
+            "parameters: a clone of one parameter inserted anywhere in the list (the first of the two handles is stepped, "
+            "the second left untouched, every other parameter stepped with its own gradient only); distinct = "
             "distinct program text",
     "exhaustive": {"quick": False, "thorough": False},
     "assumptions": ["gradients have their parameter's dimensions (guaranteed by C03 for gradients produced by backward)"],
@@ -1287,6 +1360,52 @@ def gen_C11(tier, rng):
             ks = [rng.choice(kinds) for _ in range(5)]
             b, nodes = custom_dag(wiring, ks, rng)
             cases.append(log_case("cdag5", b, nodes[-1], b.seed_for(nodes[-1]), "dag:5ops"))
+    # detached intermediates: a user-closure result is switched off (stop_tracking) before it is consumed, so the
+    # edges into it are untracked; the nodes below it may still be reached through tracked paths, and a second
+    # pass over the same graph must find every count back at zero.  The expected set of invocations is computed
+    # here from the tracked edges.
+    pool = list(small_dags(3, None, rng)) + four
+    for wiring in rng.sample(pool, 400 if tier == "quick" else 4000):
+        b = randprog.Builder(rng, exact=True)
+        nodes = [b.leaf([2], tracked=True), b.leaf([2], tracked=True)]
+        edges = []            # (consumer instruction, operand instruction, tracked at recording time)
+        off = set()
+        for j, (x, y) in enumerate(wiring):
+            kind = rng.choice(kinds)
+            args = [nodes[x]] if kind == "sq" else [nodes[x], nodes[y]]
+            v = b.result(("custom", kind), args, [2], False, True, 0)
+            v.tracked = True
+            for a in args:
+                edges.append((v.idx, a.idx, a.idx not in off))
+            if j < len(wiring) - 1 and rng.random() < 0.4:
+                b.emit(("stop", v.idx))
+                v.tracked = False
+                off.add(v.idx)
+            nodes.append(v)
+        root = nodes[-1]
+        c = log_case("detached", b, root, b.seed_for(root), "dag:detached_intermediates")
+        # a second pass, from the root again or from an interior operation node
+        root2 = root if rng.random() < 0.5 else rng.choice(nodes[2:])
+        at2 = len(c["instrs"])
+        c["instrs"].append(("backward", root2.idx, None))
+        for v in nodes[:2]:
+            c["instrs"].append(("grad", v.idx))
+        n1 = len(c["instrs"])
+        for v in nodes:
+            c["instrs"].append(("probe", v.idx))
+        c["adjudicate"] = c["adjudicate"] + list(range(at2, len(c["instrs"])))
+        c["log_expect"] = []
+        for at, r in ((c["backward_at"], root.idx), (at2, root2.idx)):
+            seen, todo = set(), [r]
+            while todo:
+                m = todo.pop()
+                if m in seen:
+                    continue
+                seen.add(m)
+                todo += [o for (cns, o, t) in edges if cns == m and t]
+            c["log_expect"].append((at, sorted(s for s in seen if s in c["custom_nodes"])))
+        c["custom_edges"] = [(cns, o) for (cns, o, t) in edges if t and o in c["custom_nodes"]]
+        cases.append(c)
     # chains of self-products: 2^depth paths, depth closure calls
     for depth in ([40, 50, 60] if tier == "quick" else list(range(30, 64, 2))):
         b = randprog.Builder(rng, exact=True)
@@ -1330,6 +1449,16 @@ def post_log_once(cases, rust, model):
         log = [it for it in r[c["log_at"]] if it[0] == 6]
         tags = [it[1][0] for it in log]
         n += 1
+        bad = None
+        for (at, want) in c.get("log_expect", []):
+            got = sorted(it[1][0] for it in r[at] if it[0] == 6)
+            if got != want:
+                bad = "the pass at instruction %d invoked the closures of nodes %s; the nodes reachable from its " \
+                      "root through tracked operands are %s" % (at, got, want)
+                break
+        if bad:
+            fails.append({"case": i, "confirmed": True, "reason": bad})
+            continue
         if len(tags) != len(set(tags)):
             fails.append({"case": i, "confirmed": True,
                           "reason": "a derivative closure was invoked more than once in one pass: %s" % tags})
@@ -1356,7 +1485,9 @@ PROPS["C11"] = {
     "rule": "every wiring of 1-3 user-defined operation nodes (closures mul / affine / square supplied through "
             "Array::op, kinds rotating) over two leaves, 4-node wirings (all 14400 thorough, 1500 sampled quick; the "
             "pass starts on the last or on a random node), 20000 sampled 5-node wirings (thorough), chains of "
-            "self-products of depth 40-60 (2^depth paths), random graphs mixing user closures with built-in "
+            "self-products of depth 40-60 (2^depth paths), skip connections over 130-400 levels, 3-4 node wirings with "
+            "intermediates detached by stop_tracking before they are consumed and a second pass from the root or an "
+            "interior node (expected invocation set computed from the tracked edges), random graphs mixing user closures with built-in "
             "operations; the invocation log (node, received adjoint) of each pass is compared with the model as a "
             "multiset (exact integers) and checked directly for: no node twice, consumers before operands, no "
             "reachable node missing; distinct = distinct program text",
@@ -1641,7 +1772,9 @@ PROPS["C09"] = {
             "then 1-3 passes from random nodes, each followed by the gradient of every live handle and further flag "
             "read-backs (the previous-flag return values); finally every handle's flag, values and gradient; plus, for "
             "every operation, a result of untracked operands followed by Vec::from(operand) (must succeed), and "
-            "matmul with every tracking mask over (a, b, additive term); compared with the model; a gradient the model "
+            "matmul with every tracking mask over (a, b, additive term); for every operation, an operand switched off "
+            "(stop_tracking / untracked) after the result was recorded, then two passes; compared with the model; a "
+            "gradient the model "
             "stores on an intermediate but corgi does not is tolerated (keep-flag choice, outside the property); "
             "distinct = distinct program text",
     "exhaustive": {"quick": False, "thorough": False},
@@ -1987,6 +2120,83 @@ def gen_C12(tier, rng):
             if not exact:
                 v["rtol"] = 1e-7
             cases.append(v)
+    # two passes from one result with handles on the stored gradients taken, cloned, viewed or dropped in
+    # between: what the second pass deposits must not depend on them.  A third of the seeds are smaller,
+    # broadcast-compatible arrays (a scalar, a trailing row): corgi accepts them, the properties say nothing
+    # about their values, so those programs are judged corgi-against-corgi only (no model run)
+    for n in range(150 if tier == "quick" else 2000):
+        d = rng.choice([[2], [3], [2, 3], [3, 2], [2, 2]])
+        nel = prod(d)
+        ins = [("leaf", True, d, [float(rng.randint(-3, 3)) for _ in range(nel)]),
+               ("leaf", True, d, [float(rng.randint(1, 3)) for _ in range(nel)])]
+        root_is_leaf = n % 7 == 0
+        cur = 0
+        if not root_is_leaf:
+            ins.append(("op", (rng.choice(["add", "mul", "sub"]),), [0, 1]))
+            cur = 2
+            for _ in range(rng.randint(0, 3)):
+                k = rng.choice(["add", "mul", "sub", "neg", "scale"])
+                if k == "neg":
+                    ins.append(("op", ("neg",), [cur]))
+                elif k == "scale":
+                    ins.append(("op", ("scale", float(rng.randint(2, 3))), [cur]))
+                else:
+                    other = rng.choice([0, 1])
+                    ins.append(("op", (k,), [cur, other] if rng.random() < 0.5 else [other, cur]))
+                cur = len(ins) - 1
+        root = cur
+        targets = [0] if root_is_leaf else [root, 0, 1]
+        ill = [False]
+
+        def seed():
+            x = rng.random()
+            if x < 0.3:
+                return None
+            if x < 0.65:
+                return (d, [float(rng.randint(-2, 3)) for _ in range(nel)])
+            ill[0] = True
+            sd = [1] if rng.random() < 0.5 or len(d) == 1 else d[1:]
+            return (sd, [float(rng.randint(1, 3)) for _ in range(prod(sd))])
+        s1, s2 = seed(), seed()
+
+        def program(variant):
+            prog = list(ins)
+            prog.append(("backward", root, s1))
+            if variant:
+                for t in targets:
+                    x = rng.random()
+                    if x < 0.2:
+                        continue
+                    prog.append(("fetchgrad", t))
+                    g = len(prog) - 1
+                    y = rng.random()
+                    if y < 0.25:
+                        pass                                  # the handle stays alive over the second pass
+                    elif y < 0.5:
+                        prog += [("clone", g), ("drop", g)]   # a clone of it stays alive
+                    elif y < 0.75:
+                        # a view of it stays alive (the root's stored gradient has its first seed's shape)
+                        gn = prod(s1[0]) if (t == root and s1 is not None) else nel
+                        prog += [("op", ("reshape", [gn]), [g]), ("drop", g)]
+                    else:
+                        prog.append(("drop", g))              # read and dropped at once
+            prog.append(("backward", root, s2))
+            at = {}
+            for t in targets:
+                prog.append(("grad", t))
+                at[t] = len(prog) - 1
+            return prog, at
+        for k in range(4):
+            prog, at = program(k > 0)
+            c = case("twopass", prog, "two_passes:%s_seeds%s" % ("broadcast" if ill[0] else "shaped",
+                                                                ":leaf_root" if root_is_leaf else ""))
+            c["group"] = 100000 + n
+            c["role"] = "base" if k == 0 else "variant%d" % (k - 1)
+            c["grads_by_leaf"] = at
+            c["adjudicate"] = sorted(at.values())
+            if ill[0]:
+                c["skip_model"] = True
+            cases.append(c)
     return cases
 
 
@@ -2029,7 +2239,10 @@ PROPS["C12"] = {
             "variants: operands replaced by fresh clones (p=0.4 per operand), intermediate handles dropped right after "
             "their last use (p=0.6), the pass started from a clone of the result (p=0.5), gradients read through a clone "
             "of the leaf (p=0.4); corgi's gradients of the variant must equal corgi's gradients of the original bitwise, "
-            "and both agree with the model; distinct = distinct program text",
+            "and both agree with the model; plus two-pass programs (seeds: none, shaped, or a smaller broadcast-compatible "
+            "array) where between the passes handles on the stored gradients of the result and the leaves are taken, "
+            "cloned, viewed through reshape, or dropped - the final gradients must not depend on that (programs with "
+            "broadcast seeds are judged corgi-against-corgi only); distinct = distinct program text",
     "exhaustive": {"quick": False, "thorough": False},
     "assumptions": [],
     "post": ["variants_equal"],
